@@ -24,7 +24,7 @@ REQUIRED = ['keeps_direct_seats', 'house_grows_by_adj', 'house_grows_by_adj_of_f
             'level_cty_is_least']
 REQUIRED_COUNTERS = ['overhang_present', 'no_overhang', 'party_outside_tier', 'party_without_votes',
                      'levelling_iterations_ge2', 'by_constituency', 'multistage_wrapped',
-                     'allow', 'level', 'd_hondt', 'sainte_lague', 'hare_lr', 'tie_in_baseline']
+                     'allow', 'level', 'd_hondt', 'sainte_lague', 'hare_lr', 'tie_in_baseline', 'multistage_depth2']
 RULE = ('second-vote dicts over 2-6 parties (tie-forcing small sets, zero-vote parties, up to 10^12, some Fractions); '
         'baseline house sizes 1..30; direct-seat maps with sum <= house size (proportional-like, skewed, random; parties '
         'with direct seats but no proportional seat; parties without a votes entry); proportional evaluator in '
@@ -111,6 +111,25 @@ def _cty_calc(case):
     return vc.LevelOverhangByConstituency(vc.ByConstituency(ev, apportioner=app), overall_evaluator=overall)
 
 
+def _enc_nested(res):
+    """{constituency | Tie: {party | Tie: seats}} -> sorted [[ckey, [[pkey, seats], ...]], ...]"""
+    import votelib.evaluate.core as vcore
+    out = []
+    for c, d in res.items():
+        ck = {'tie': sorted(CNAMES.i(x) for x in c)} if isinstance(c, vcore.Tie) else CNAMES.i(c)
+        out.append([ck, enc_distribution(d, NAMES)])
+    out.sort(key=lambda p: json.dumps(p[0], sort_keys=True))
+    return out
+
+
+def _canon_nested(model_out):
+    if isinstance(model_out, dict):
+        return model_out
+    out = [[canon(k), canon_dist(d)] for k, d in model_out]
+    out.sort(key=lambda p: json.dumps(p[0], sort_keys=True))
+    return out
+
+
 def _intres(x):
     return x if isinstance(x, int) and not isinstance(x, bool) else num_str(x)
 
@@ -122,6 +141,16 @@ def impl(case):
             return guarded(lambda: _intres(_cty_calc(case).calculate(_cvotes(case), case['n'], prev_gains=_cprev(case))))
         votes, prev, caps = _votes(case), _seats(case['prev']), _seats(case['max'])
         return guarded(lambda: _intres(_flat_calc(case).calculate(votes, case['n'], prev_gains=prev, max_seats=caps)))
+    if case['op'] == 'adjusted_eval' and case['kind'] == 'level_cty':
+        cvotes, cprev, n = _cvotes(case), _cprev(case), case['n']
+        adj = guarded(lambda: _intres(_cty_calc(case).calculate(cvotes, n, prev_gains=cprev)))
+        asc = vc.AdjustedSeatCount(_cty_calc(case), vc.ByParty(_ev(case['final']), allocator=_ev(case['final'])))
+        if case['wrap'] == 'multistage':
+            ms = vc.MultistageDistributor([_Mock(cprev), asc], depth=2)
+            res = guarded(lambda: _enc_nested(ms.evaluate(cvotes, n)))
+        else:
+            res = guarded(lambda: _enc_nested(asc.evaluate(cvotes, n, prev_gains=cprev)))
+        return {'adj': adj, 'result': res}
     if case['op'] == 'adjusted_eval':
         votes, prev, caps = _votes(case), _seats(case['prev']), _seats(case['max'])
         adj = guarded(lambda: _intres(_flat_calc(case).calculate(votes, case['n'], prev_gains=prev, max_seats=caps)))
@@ -146,7 +175,7 @@ def compare(case, iobs, mobs):
         a = canon(iobs)
         b = {'adj': mobs.get('adj'), 'result': mobs.get('result')}
         if not isinstance(b['result'], dict):
-            b['result'] = canon_dist(b['result'])
+            b['result'] = _canon_nested(b['result']) if case['kind'] == 'level_cty' else canon_dist(b['result'])
         if a != b:
             return f'impl={json.dumps(a)} model={json.dumps(b)}'
         return None
@@ -288,30 +317,84 @@ def _cty_expected(case):
     return {'floors': floors, 'drop': drop, 'least': least, 'totals': totals}
 
 
+def _cty_adj_clauses(case, obs):
+    """clauses on the adjustment reported by LevelOverhangByConstituency; returns (violations, expected | None)"""
+    out = []
+    if isinstance(obs, dict) and case.get('overall') == 'none':
+        return [('default_overall_evaluator_crashes:' + str(obs.get('err')), 'overall_evaluator=None')], None
+    try:
+        exp = _cty_expected(case)
+    except _Refused as x:
+        if obs == {'err': x.name}:
+            return [], None
+        return [('unexpected_result_on_refusal', f'evaluator refuses with {x.name}, adjuster gave {obs}')], None
+    if isinstance(obs, dict):
+        if obs.get('err') == 'FuelExhausted' and exp['least'] is None:
+            return [], None
+        return [('unexpected_error:' + str(obs.get('err')), str(obs))], None
+    if not isinstance(obs, int) or obs < 0:
+        return [('adj_negative', str(obs))], None
+    if exp['least'] is None:
+        return [('level_no_adequate_enlargement_in_bound', str(obs))], None
+    if obs < exp['least']:
+        out.append(('level_floor_unmet', f'adjustment {obs} < least adequate enlargement {exp["least"]}; floors {exp["floors"]}'))
+    elif obs > exp['least']:
+        out.append(('level_not_least', f'adjustment {obs} > least adequate enlargement {exp["least"]}; floors {exp["floors"]}'))
+    return out, exp
+
+
+def _oracle_cty_eval(case, obs):
+    adj, res = obs['adj'], obs['result']
+    out, exp = _cty_adj_clauses(case, adj)
+    if isinstance(adj, dict):
+        if not isinstance(res, dict) or res.get('err') != adj.get('err'):
+            out.append(('result_despite_calculator_error', f'adj {adj} result {res}'))
+        return out
+    if isinstance(res, dict):
+        return out + [('final_stage_error:' + str(res.get('err')) + ':' + case['final'], f'adjustment {adj}')]
+    n = case['n']
+    direct = {c: {i: k for i, k in ps} for c, ps in case['cprev']}
+    totals = {}
+    for ck, d in res:
+        ck = ('tie',) + tuple(ck['tie']) if isinstance(ck, dict) else ck
+        for k, s in d:
+            kk = ('tie',) + tuple(k['tie']) if isinstance(k, dict) else k
+            totals.setdefault(ck, {})[kk] = s
+            if not isinstance(s, int) or s < 0:
+                out.append(('negative_gain', str(res)))
+    if case['wrap'] != 'multistage':
+        for c, d in direct.items():
+            for p, k in d.items():
+                totals.setdefault(c, {})[p] = totals.get(c, {}).get(p, 0) + k
+    for c, d in direct.items():
+        for p, k in d.items():
+            if totals.get(c, {}).get(p, 0) < k:
+                out.append(('direct_seat_lost', f'constituency {c} party {p}: {totals.get(c, {}).get(p, 0)} < {k}'))
+    house = sum(s for d in totals.values() for s in d.values())
+    if house != n + adj:
+        outside = exp is not None and exp['drop'] > 0
+        out.append(('house_size_by_party_outside_tier' if outside else 'house_size',
+                    f'house {house}, baseline {n} + adjustment {adj}'))
+    if exp is not None and exp['drop'] == 0 and case['final'] == case['evaluator'] and not out:
+        try:
+            full = _bb(case['final'], exp['totals'], n + adj)
+            by_party = {}
+            for d in totals.values():
+                for p, s in d.items():
+                    by_party[p] = by_party.get(p, 0) + s
+            if {k: s for k, s in by_party.items() if s} != {k: s for k, s in full.items() if s}:
+                out.append(('final_not_proportional', f'party totals {by_party}, proportional distribution of {n + adj} seats {full}'))
+        except _Refused as x:
+            out.append(('final_not_proportional', f'proportional evaluator refuses {n + adj} seats: {x.name}'))
+    return out
+
+
 def oracle(case, obs):
     out = []
     if case['op'] == 'overhang_calc' and case['kind'] == 'level_cty':
-        if isinstance(obs, dict) and case.get('overall') == 'none':
-            return [('default_overall_evaluator_crashes:' + str(obs.get('err')), 'overall_evaluator=None')]
-        try:
-            exp = _cty_expected(case)
-        except _Refused as x:
-            if obs == {'err': x.name}:
-                return []
-            return [('unexpected_result_on_refusal', f'evaluator refuses with {x.name}, adjuster gave {obs}')]
-        if isinstance(obs, dict):
-            if obs.get('err') == 'FuelExhausted' and exp['least'] is None:
-                return []
-            return [('unexpected_error:' + str(obs.get('err')), str(obs))]
-        if not isinstance(obs, int) or obs < 0:
-            return [('adj_negative', str(obs))]
-        if exp['least'] is None:
-            return [('level_no_adequate_enlargement_in_bound', str(obs))]
-        if obs < exp['least']:
-            out.append(('level_floor_unmet', f'adjustment {obs} < least adequate enlargement {exp["least"]}; floors {exp["floors"]}'))
-        elif obs > exp['least']:
-            out.append(('level_not_least', f'adjustment {obs} > least adequate enlargement {exp["least"]}; floors {exp["floors"]}'))
-        return out
+        return _cty_adj_clauses(case, obs)[0]
+    if case['op'] == 'adjusted_eval' and case['kind'] == 'level_cty':
+        return _oracle_cty_eval(case, obs)
     votes = _votes(case)
     direct = {i: k for i, k in case['prev']}
     n = case['n']
@@ -357,6 +440,8 @@ def oracle(case, obs):
 
 
 def nontrivial(case, obs):
+    if case['op'] == 'adjusted_eval' and case['kind'] == 'level_cty':
+        return not isinstance(obs['result'], dict) and any(k for _, ps in case['cprev'] for _, k in ps)
     if case['op'] == 'adjusted_eval':
         return not isinstance(obs['result'], dict) and any(k for _, k in case['prev'])
     if isinstance(obs, dict):
@@ -467,7 +552,7 @@ def _flat_case(rng, op=None, kind=None, ev=None, vkind=None, dmode=None, n=None,
     return c
 
 
-def _cty_case(rng, ev=None):
+def _cty_case(rng, ev=None, op=None, wrap=None):
     m = rng.randint(2, 5)
     nc = rng.randint(2, 3)
     ev = ev or rng.choice(EVALS)
@@ -484,8 +569,15 @@ def _cty_case(rng, ev=None):
     n = sum(k for _, k in app) + rng.choice([0, 0, 0, 1, 2])
     if sum(k for _, ps in cprev for _, k in ps) > n:
         n = sum(k for _, ps in cprev for _, k in ps)
-    return {'op': 'overhang_calc', 'kind': 'level_cty', 'evaluator': ev, 'overall': 'given', 'cvotes': cvotes,
-            'cprev': cprev, 'app': app, 'n': n, 'fuel': FUEL, '_tags': ['by_constituency', ev]}
+    c = {'op': op or rng.choice(['overhang_calc', 'adjusted_eval']), 'kind': 'level_cty', 'evaluator': ev,
+         'overall': 'given', 'cvotes': cvotes, 'cprev': cprev, 'app': app, 'n': n, 'fuel': FUEL,
+         '_tags': ['by_constituency', ev]}
+    if c['op'] == 'adjusted_eval':
+        c['final'] = ev
+        c['wrap'] = wrap or rng.choice(['none', 'multistage'])
+        if c['wrap'] == 'multistage':
+            c['_tags'] += ['multistage_wrapped', 'multistage_depth2']
+    return c
 
 
 def _post_tags(case):
@@ -549,6 +641,7 @@ def generate(rng, tier):
             cases.append(_flat_case(rng, op='adjusted_eval', ev=ev, wrap='multistage', dmode='skew'))
             cases.append(_flat_case(rng, ev=ev, vkind='small', n=rng.choice([1, 2, 3, 5, 7])))          # ties in the baseline
             cases.append(_cty_case(rng, ev=ev))
+            cases.append(_cty_case(rng, ev=ev, op='adjusted_eval', wrap='multistage'))
     if tier == 'thorough':
         # small-scope exhaustive: all vote vectors over {0..3}^<=3, n <= 5, all direct maps with sum <= n over the
         # parties and one party without votes
@@ -604,8 +697,15 @@ def describe(case):
     if case.get('kind') == 'level_cty':
         app = {CNAMES.n(c): k for c, k in case['app']}
         ov = evs[case['evaluator']] if case.get('overall', 'given') == 'given' else 'None'
-        return (f"LevelOverhangByConstituency(ByConstituency({evs[case['evaluator']]}, apportioner={app!r}), "
-                f"overall_evaluator={ov}).calculate({_cvotes(case)!r}, {case['n']}, prev_gains={_cprev(case)!r})")
+        calc = (f"LevelOverhangByConstituency(ByConstituency({evs[case['evaluator']]}, apportioner={app!r}), "
+                f"overall_evaluator={ov})")
+        if case['op'] == 'overhang_calc':
+            return f"{calc}.calculate({_cvotes(case)!r}, {case['n']}, prev_gains={_cprev(case)!r})"
+        asc = f"AdjustedSeatCount({calc}, ByParty({evs[case['final']]}, allocator={evs[case['final']]}))"
+        if case['wrap'] == 'multistage':
+            return (f"MultistageDistributor([<stage returning {_cprev(case)!r}>, {asc}], depth=2)"
+                    f".evaluate({_cvotes(case)!r}, {case['n']})")
+        return f"{asc}.evaluate({_cvotes(case)!r}, {case['n']}, prev_gains={_cprev(case)!r})"
     cls = {'allow': 'AllowOverhang', 'level': 'LevelOverhang'}[case['kind']]
     calc = f"{cls}({evs[case['evaluator']]})"
     votes, prev = _votes(case), _seats(case['prev'])
